@@ -107,11 +107,70 @@ func verif_contract_EncodeIP4(p []byte, ttl byte, src netip.Addr, dst netip.Addr
 	return r
 }
 
+// spec_hdrsum0: sum of the nine 16-bit words of an IPv4 header other than the checksum word.
+func spec_hdrsum0(p []byte) uint32 {
+	return uint32(spec_be16(p, 0)) + uint32(spec_be16(p, 2)) + uint32(spec_be16(p, 4)) + uint32(spec_be16(p, 6)) + uint32(spec_be16(p, 8)) +
+		uint32(spec_be16(p, 12)) + uint32(spec_be16(p, 14)) + uint32(spec_be16(p, 16)) + uint32(spec_be16(p, 18))
+}
+
+// CalculateChecksum is the RFC 1071 checksum of the header with its checksum
+// word taken as zero, in the byte order the library stores it.
+//
 //verif:props C03 C15
 func verif_contract_IP4_CalculateChecksum(p IP4) uint16 {
 	vRequires(len(p) >= 20)
+	vFuel(11)
+	vCanary()
 	r := p.CalculateChecksum()
+	vEnsures(r == spec_opq_bswap16(^spec_opq_fold(spec_hdrsum0(p))))
 	return r
+}
+
+//verif:props C15
+func verif_lemma_fold_complement(x uint32) {
+	vReveal()
+	vRequires(x <= 0x7fff0000)
+	vAssert(spec_opq_fold(x+uint32(^spec_opq_fold(x))) == 0xffff)
+}
+
+//verif:props C15
+func verif_lemma_hdrsum_bound(p []byte) {
+	vRequires(len(p) >= 20)
+	vAssert(spec_hdrsum0(p) <= 9*0xffff)
+}
+
+//verif:props C15
+func verif_lemma_bswap_involution(x uint16) {
+	vReveal()
+	vAssert(spec_opq_bswap16(spec_opq_bswap16(x)) == x)
+	vAssert(uint16(byte(x))<<8|uint16(byte(x>>8)) == spec_opq_bswap16(x))
+}
+
+// An IPv4 header completed by SetPayload sums to zero under RFC 1071.
+//
+//verif:props C15
+func verif_lemma_ip4_setpayload_sums_to_zero(p IP4, b []byte, protocol byte) {
+	vRequires(len(p) >= 20 && 20+len(b) <= cap(p) && len(b) <= 65515)
+	vFuel(11)
+	r := p.SetPayload(b, protocol)
+	vCanary()
+	verif_lemma_hdrsum_bound(r)
+	verif_lemma_fold_complement(spec_hdrsum0(r))
+	vAssert(spec_rfc1071(r[:20]) == 0)
+}
+
+// An IPv4 header completed by AppendPayload sums to zero under RFC 1071.
+//
+//verif:props C15
+func verif_lemma_ip4_appendpayload_sums_to_zero(p IP4, b []byte, protocol byte) {
+	vRequires(len(p) == 20 && p[0] == 0x45 && len(b) <= 1480 && cap(p)-20 >= len(b))
+	vRequires(spec_disjoint(b, p[:cap(p)]))
+	vFuel(11)
+	r, err := p.AppendPayload(b, protocol)
+	vCanary()
+	verif_lemma_hdrsum_bound(r)
+	verif_lemma_fold_complement(spec_hdrsum0(r))
+	vAssert(err == nil && spec_rfc1071(r[:20]) == 0)
 }
 
 //verif:props C03
@@ -123,6 +182,10 @@ func verif_contract_IP4_SetPayload(p IP4, b []byte, protocol byte) IP4 {
 	r := p.SetPayload(b, protocol)
 	vEnsures(len(r) == 20+len(b) && vSameRegion(r, p) && vOffset(r, p) == 0 && cap(r) == cap(p))
 	vEnsures(r[9] == protocol && int(spec_be16(r, 2)) == 20+len(b))
+	// the stored checksum word is the complement of the folded sum of the other nine words
+	verif_lemma_bswap_involution(^spec_opq_fold(spec_hdrsum0(r)))
+	verif_lemma_bswap_involution(spec_opq_bswap16(^spec_opq_fold(spec_hdrsum0(r))))
+	vEnsures(spec_be16(r, 10) == ^spec_opq_fold(spec_hdrsum0(r)))
 	return r
 }
 
@@ -142,6 +205,9 @@ func verif_contract_IP4_AppendPayload(p IP4, b []byte, protocol byte) (IP4, erro
 	} else {
 		vEnsures(err == nil && len(r) == 20+len(b) && vSameRegion(r, p) && vOffset(r, p) == 0 && cap(r) == cap(p))
 		vEnsures(r[9] == protocol && int(spec_be16(r, 2)) == 20+len(b))
+		verif_lemma_bswap_involution(^spec_opq_fold(spec_hdrsum0(r)))
+		verif_lemma_bswap_involution(spec_opq_bswap16(^spec_opq_fold(spec_hdrsum0(r))))
+		vEnsures(spec_be16(r, 10) == ^spec_opq_fold(spec_hdrsum0(r)))
 		vEnsures(vForall(0, len(b), func(i int) bool { return r[20+i] == b[i] }))
 	}
 	return r, err
